@@ -215,6 +215,13 @@ func (r *Run) Violation(sig, what string, replay interface{}) bool {
 	for _, k := range r.findings {
 		if k.re.MatchString(sig) {
 			r.knownHit[k.ID]++
+			if os.Getenv("VERIF_SHOW_KNOWN") != "" && r.knownHit[k.ID] <= 3 {
+				w := what
+				if len(w) > 400 {
+					w = w[:400]
+				}
+				fmt.Fprintf(os.Stderr, "known %s: signature %s\n  %s\n", k.ID, sig, strings.ReplaceAll(w, "\n", "\n  "))
+			}
 			return false
 		}
 	}
